@@ -56,6 +56,7 @@ fn main() {
     }
     match args[0].as_str() {
         "count-spaces" => count_spaces(),
+        "show-w" => show_w(args[1].parse().unwrap_or(3), &args[2]),
         "canon-info" => canon_info(&std::fs::read_to_string(&args[1]).unwrap_or_default(), args[2].as_bytes()),
         "find-level-probe" => {
             // development aid: programs whose printed IR differs between all of -O0..-O3
@@ -146,6 +147,7 @@ fn run_check(prop: &str, tier: Tier) -> i32 {
     let mut crashes: Vec<(String, String, J)> = Vec::new();
     let mut vcount = 0u64;
     let mut distinct = 0u64;
+    let mut distinct_by_part = J::obj();
     let mut samples = Vec::new();
     let mut capped = false;
     for (sub, profile) in &parts {
@@ -167,7 +169,9 @@ fn run_check(prop: &str, tier: Tier) -> i32 {
             *known_hits.entry(k).or_insert(0u64) += v;
         }
         vcount += out.violation_count;
-        distinct += out.distinct;
+        // parts may explore the same cases (e.g. two build profiles): count conservatively
+        distinct = distinct.max(out.distinct);
+        distinct_by_part.put(sub, out.distinct);
         for s in out.samples {
             if samples.len() < 8 {
                 samples.push(s);
@@ -327,6 +331,7 @@ fn run_check(prop: &str, tier: Tier) -> i32 {
         }
     }
     cov.put("counters", counters);
+    cov.put("distinct_by_part", distinct_by_part);
     if let J::Obj(m) = &forms {
         if !m.is_empty() {
             let reached: Vec<&String> = m.keys().collect();
@@ -402,4 +407,10 @@ pub fn canon_info(code: &str, script: &[u8]) {
         let c = refbf::run(code.as_bytes(), w, script, 50_000_000, false);
         println!("w{} verdict {:?} steps {} trace {} pmin {} pmax {}", w.bits(), c.verdict, c.steps, c.trace.len(), c.pmin, c.pmax);
     }
+}
+
+#[allow(dead_code)]
+pub fn show_w(k: usize, forms: &str) {
+    let f: Vec<usize> = forms.split(',').filter_map(|x| x.parse().ok()).collect();
+    println!("{}", String::from_utf8(spaces::w_program(k, &f)).unwrap());
 }
